@@ -169,3 +169,34 @@ Lemma rib_counters_example :
   (ribm_run [UBulk [MkPay (0, 1, 7) true 1; MkPay (0, 2, 7) true 1]; UBulk [MkPay (0, 1, 8) true 2]; UBulk [MkPay (0, 2, 7) false 0];
              UBulk [MkPay (0, 3, 7) false 0]; UWithdraw 8 None])%N.2 = MkRmet 2 2 1 1%Z 2 1 0.
 Proof. vm_compute. reflexivity. Qed.
+
+(* ---- the strongest agreement that does hold for num_items: it is the number of records as long as no prefix is held for two ids ---- *)
+Lemma size_set_map_fst_inj (X : gset rkey) :
+  (forall k k', k ∈ X -> k' ∈ X -> k.1 = k'.1 -> k = k') ->
+  size (set_map (D:=gset (N * N)) (fun k : rkey => k.1) X) = size X.
+Proof.
+  induction X as [|x X Hx IH] using set_ind_L; intros Hinj.
+  - rewrite set_map_empty. rewrite !size_empty. reflexivity.
+  - rewrite set_map_union_L, set_map_singleton_L.
+    rewrite (size_union {[x]} X) by set_solver.
+    rewrite size_union.
+    + rewrite !size_singleton, IH; [reflexivity|]. intros k k' Hk Hk'. apply Hinj; set_solver.
+    + intros y Hy1 Hy2. apply elem_of_singleton in Hy1. apply elem_of_map in Hy2 as [z [Hz1 Hz2]]. subst y.
+      assert (z = x) as -> by (apply Hinj; [set_solver|set_solver|symmetry; exact Hz1]). contradiction.
+Qed.
+
+Lemma rib_items_partial us :
+  let s := ribm_run us in
+  (forall k k', is_Some (recs s.1 !! k) -> is_Some (recs s.1 !! k') -> k.1 = k'.1 -> k = k') ->
+  rm_items s.2 = N.of_nat (size (recs s.1)).
+Proof.
+  cbn zeta. intros Hinj. destruct (rib_gauges_are_sizes us) as [_ H]. rewrite H. f_equal.
+  unfold rib_pfxs. rewrite size_set_map_fst_inj; [apply size_dom|].
+  intros k k' Hk Hk'. apply Hinj; apply elem_of_dom; assumption.
+Qed.
+
+(* the hypothesis holds on a history with two prefixes of one id *)
+Lemma rib_items_partial_example :
+  let s := ribm_run [UBulk [MkPay (0, 1, 7) true 1; MkPay (0, 2, 7) true 1]; UBulk [MkPay (0, 2, 7) false 0]]%N in
+  rm_items s.2 = 2%N /\ size (recs s.1) = 2%nat.
+Proof. vm_compute. split; reflexivity. Qed.
